@@ -112,6 +112,7 @@ fn main() {
     let stdin = std::io::stdin();
     let stdout = std::io::stdout();
     let mut out = std::io::BufWriter::new(stdout.lock());
+    let rename_enabled = std::env::var("VERIF_SINGLE_NAMING").is_err();
     for line in stdin.lock().lines() {
         let line = line.expect("read");
         let line = line.trim();
@@ -119,16 +120,41 @@ fn main() {
             continue;
         }
         HOOK_FIRED.with(|h| *h.borrow_mut() = None);
-        let result = match sx::parse(line) {
-            Err(e) => format!("(-3) ; parse: {e}"),
-            Ok(case) => match guarded(|| dispatch(&case)) {
-                Some(r) => r.to_string(),
-                None => {
-                    let msg = LAST_PANIC.with(|h| h.borrow().clone()).unwrap_or_default();
-                    format!("(-7) ; uncaught panic in harness: {}", msg.replace('\n', " "))
-                }
-            },
+        sx::set_naming(0);
+        let run_case = |case: &Sx| match guarded(|| dispatch(case)) {
+            Some(r) => r.to_string(),
+            None => {
+                let msg = LAST_PANIC.with(|h| h.borrow().clone()).unwrap_or_default();
+                format!("(-7) ; uncaught panic in harness: {}", msg.replace('\n', " "))
+            }
         };
+        let mut result = match sx::parse(line) {
+            Err(e) => format!("(-3) ; parse: {e}"),
+            Ok(case) => {
+                let a = run_case(&case);
+                // naming parametricity: the same case with the dimension ids rendered as names the
+                // crate uses internally must give the identical result (C18 / C20 cases carry
+                // name TEXT in their results and are exempt)
+                let prop = case.list().and_then(|v| v.first()).and_then(|x| x.i64()).unwrap_or(0);
+                let hooked = HOOK_FIRED.with(|h| h.borrow().is_some());
+                if rename_enabled && !hooked && prop != 18 && prop != 20 && prop != 0 {
+                    sx::set_naming(1);
+                    let b = run_case(&case);
+                    sx::set_naming(0);
+                    let strip = |s: &str| s.split(" ; ").next().unwrap_or("").trim().to_string();
+                    if strip(&a) != strip(&b) {
+                        format!("(-8 9001) ; result depends on the dimension NAMES: with d<n> names {} ; with crate-internal names {}", strip(&a), b.replace(" ; ", " | "))
+                    } else {
+                        a
+                    }
+                } else {
+                    a
+                }
+            }
+        };
+        if result.is_empty() {
+            result = "(-3)".to_string();
+        }
         let hook = HOOK_FIRED.with(|h| h.borrow().clone());
         match hook {
             Some(msg) => writeln!(out, "(-9) ; {} ; result was {}", msg.replace('\n', " "), result).unwrap(),
